@@ -48,14 +48,56 @@ MIN_HOOKS = {"save_match": {"quick": 300, "thorough": 4000}, "load_matchfile": {
              "load_match": {"quick": 400, "thorough": 5000}}
 MIN_NONTRIVIAL = {"quick": 150, "thorough": 2000}
 ITEM_TIMEOUT_S = 240
+LOAD_BUDGET_S = 40
 
 BEAT_TOL = Fraction(5, 10**5)
 _hooks = []
 FIXTURES = ["Chopin_op10_no3_p01.match", "mozart_k265_var1.match", "test_fuer_elise.match"]
 
 
+_seen_keys = collections.Counter()
+
+
 def V(key, what, witness=None):
-    core.CURRENT.violation(key, what, witness)
+    """At most two witnesses per mechanism and worker (the runner writes one replay file per witness)."""
+    _seen_keys[key] += 1
+    if _seen_keys[key] <= 2:
+        core.CURRENT.violation(key, what, witness)
+    else:
+        core.CURRENT._viol_keys[key] += 1
+
+
+class LoadHang(BaseException):
+    pass
+
+
+def call_with_budget(ctx, seconds, fn, *a, **k):
+    """ctx.try_call under a time budget of its own (the item budget of the core is restored afterwards).
+    -> (status, result), status in 'ok' 'raised' 'hang'"""
+    import signal
+    import time
+
+    def on_alarm(signum, frame):
+        raise LoadHang()
+
+    try:
+        old_handler = signal.signal(signal.SIGALRM, on_alarm)
+    except (ValueError, AttributeError):
+        ok, res = ctx.try_call(fn, *a, **k)
+        return ("ok" if ok else "raised"), res
+    t0 = time.time()
+    remaining, _ = signal.setitimer(signal.ITIMER_REAL, seconds)
+    try:
+        ok, res = ctx.try_call(fn, *a, **k)
+        status = "ok" if ok else "raised"
+    except LoadHang:
+        status, res = "hang", None
+    finally:
+        signal.setitimer(signal.ITIMER_REAL, 0)
+        signal.signal(signal.SIGALRM, old_handler)
+        if remaining:
+            signal.setitimer(signal.ITIMER_REAL, max(1.0, remaining - (time.time() - t0)))
+    return status, res
 
 
 def jsonable(x):
@@ -596,8 +638,13 @@ def post_save(ret, exc, token, a, k):
     with open(d["out"]) as f:
         text = f.read()
     wrong, T = check_text(ctx, S, text)
-    ok, loaded = ctx.try_call(partitura.load_match, d["out"], create_score=True)
-    if not ok:
+    status, loaded = call_with_budget(ctx, LOAD_BUDGET_S, partitura.load_match, d["out"], create_score=True)
+    if status == "hang":
+        V("load-of-written-file-does-not-terminate", f"load_match(create_score=True) of the file save_match wrote did not return "
+          f"within {LOAD_BUDGET_S} s", S.witness(file_head=text.splitlines()[:60]))
+        ctx.case(["hang", core.digest(S.desc)], False, cls="load-hang")
+        return
+    if status == "raised":
         ctx.extra["load_after_save_raised"] += 1
         last = ctx.violations[-1] if ctx.violations else None
         if last is not None and last["key"].startswith("raise:") and last["witness"].get("detail") is None:
